@@ -110,7 +110,8 @@ def run(ctx: RunCtx) -> None:
     with s2.http_seams(sched, det):
         cluster = s2.Cluster(ctx, sched, S.StickyProto, lambda: S.StickyImpl(world), n_workers=2,
                              app_kwargs=dict(prefix=prefix, token_key=b"K" * 32, enable_sticky=True, sticky_default_ttl=TTLS[0],
-                                             authenticate=s2.header_authenticate))
+                                             authenticate=s2.header_authenticate, enable_not_found_page=False,
+                                             enable_landing_page=False, enable_describe_page=False))
 
         def now() -> float:
             return sched.time()
